@@ -6,7 +6,7 @@ from .. import catalogue as K
 from .. import speccheck as S
 
 THEOREMS = ["c06_array_arity", "c06_tuple2_arity", "c06_tuple3_arity", "c06_option_null", "c06_option_some", "c06_box", "c06_vec_elements", "c06_vec_length", "c06_map_bad_key_fails",
-            "c06_set_value", "c06_map_value", "c06_set_members", "c06_set_distinct", "c06_set_covers", "c06_map_insert_same", "c06_map_insert_other"]
+            "c06_set_value", "c06_map_value", "c06_set_members", "c06_set_distinct", "c06_set_covers", "c06_map_insert_same", "c06_map_insert_other", "c06_cs_split_join", "c06_cs_segments_comma_free", "c06_cs_split_determined", "c06_cs_dropped_iff_empty", "c06_cs_ok", "c06_cs_err", "c06_cs_strings", "c06_cs_run", "c06_key_int_sound", "c06_key_int_canonical"]
 
 
 def run(ctx, H):
